@@ -12,13 +12,46 @@ transitions can depend on (over-fine is safe, too coarse is not).
     canon(system)           -> hashable
 """
 import collections
+import os
+
+_HERE = os.path.dirname(os.path.dirname(os.path.abspath(__file__)))
+
+
+def library_raised(err):
+    """True when the exception was raised by (or below) code of the library under test rather than by the harness: the
+    innermost frame that belongs either to /verif or to the TotalDepth package is a TotalDepth one."""
+    tb = err.__traceback__
+    last = None
+    while tb is not None:
+        fn = tb.tb_frame.f_code.co_filename
+        if fn.startswith(_HERE + os.sep):
+            last = 'harness'
+        elif os.sep + 'TotalDepth' + os.sep in fn:
+            last = 'library'
+        tb = tb.tb_next
+    return last == 'library'
+
+
+def make_or_violation(make, res, case_base, what='building the system on a conformant input'):
+    """make(), or None after recording a violation when the library (not the harness) raised."""
+    try:
+        return make()
+    except Exception as err:  # noqa
+        if not library_raised(err):
+            raise
+        case = dict(case_base)
+        case['history'] = []
+        res.violate({'kind': 'construction_raises', 'exc': type(err).__name__}, case, '%s raised %s: %s' % (what, type(err).__name__, err))
+        return None
 
 
 def search(make, ops, step, canon, max_depth, res, case_base, max_states=200000, sample_every=0):
     """Runs the search, records counts and violations into `res` (mc.run.Result).
     case_base: dict copied into every replay descriptor, the history is added under 'history'.
     Returns (states, transitions, closed)."""
-    sys0 = make()
+    sys0 = make_or_violation(make, res, case_base)
+    if sys0 is None:
+        return 0, 0, False
     seen = {canon(sys0)}
     frontier = collections.deque([[]])
     states = 1
@@ -61,7 +94,13 @@ def search(make, ops, step, canon, max_depth, res, case_base, max_states=200000,
 
 def replay_history(make, step, history):
     """Plain replay of one history with checking at every step (no explorer)."""
-    system = make()
+    try:
+        system = make()
+    except Exception as err:  # noqa
+        if not library_raised(err):
+            raise
+        return [({'kind': 'construction_raises', 'exc': type(err).__name__},
+                 'building the system on a conformant input raised %s: %s' % (type(err).__name__, err))]
     bad = []
     for op in history:
         bad.extend(step(system, op, True))
